@@ -84,6 +84,10 @@ def geometry_is_identity(gj):
 def geometry_polys(gj):
     'oracle: list of m Poly in the n root-geometry variables'
     n, m = gj['n'], gj['m']
+    if geometry_is_identity(gj):
+        arr = numpy.empty(m, dtype=object)
+        arr[:] = [Poly.var(n, i) for i in range(n)]
+        return arr
     c, h = gj['c'], gj['h']
     xh = [(Poly.var(n, i) - c[i]) * (1. / h[i]) for i in range(n)]
     inner = [Poly.var(n, i) + Poly.fromjson(n, gj['r'][i]) for i in range(n)]
@@ -103,7 +107,7 @@ def geometry_polys(gj):
     return arr
 
 
-def random_field(rng, nvars, shape, degree, nterms=(1, 4), mindeg=0):
+def random_field(rng, nvars, shape, degree, nterms=(1, 3), mindeg=0):
     'object array of sparse random polynomials of total degree <= degree; at least one component reaches `degree`'
     def one(idx):
         terms = {}
